@@ -11,9 +11,9 @@ func NewLine(from, to float64, duration time.Duration) core.Schedule {
 	if from == to {
 		return NewConst(from, duration)
 	}
-	a := (to - from) / float64(duration/1e9)
+	xn := float64(duration) / 1e9 // Seconds.
+	a := (to - from) / xn
 	b := from
-	xn := float64(duration) / 1e9
 	n := int64(a*xn*xn/2 + b*xn)
 	return NewDoAtSchedule(duration, n, lineDoAt(a, b))
 }
